@@ -222,6 +222,13 @@ class Report:
         self.cov = {}
         self.assumptions = []
         self.level = "proof"
+        # replays of earlier runs of this check are stale
+        import glob
+        for f in glob.glob(os.path.join(VERIF, "replays", "%s_%s_*" % (pid, tier))):
+            try:
+                os.remove(f)
+            except OSError:
+                pass
 
     def replay_path(self, tag):
         d = os.path.join(VERIF, "replays")
